@@ -45,7 +45,7 @@ def Shaped (ds : DS R T W) : Prop :=
 (which ndarray guarantees): the owned split, and `into_single_target` on `[n, 1]` targets -/
 def RawOk (op : Op T) (ds : DS R T W) : Prop :=
   match op with
-  | .splitOwned _ => Shaped ds
+  | .splitOwned _ _ => Shaped ds
   | .intoSingleTarget => ∀ g ∈ ds.tgts, g.length = 1
   | _ => True
 
@@ -63,7 +63,7 @@ theorem apply_aligned [DecidableEq T] (ofBool : Bool → T) (op : Op T) (ds : DS
     | 0, hd => simp at hd; subst hd; exact ⟨_, _, _, _, ha⟩
     | 1, hd => simp at hd; subst hd; exact ⟨_, _, _, _, hb⟩
     | k + 2, hd => simp at hd
-  | splitOwned n1 =>
+  | splitOwned std n1 =>
     simp only [apply] at h
     split at h
     · simp at h
@@ -211,12 +211,14 @@ example : (splitView 2 (mkDS 1 1 true [[0], [8], [16]] [[5], [6], [7]] [1, 2, 3]
 /-- **ratio split of owned data** (raw buffers cut at `n1*p` resp. `n1*t`): on a rectangular
 dataset the parts have `n1` and `n - n1` samples and row `k` of the first part is sample `k`,
 row `k` of the second is sample `n1 + k` — records, targets and weights alike -/
-theorem split_owned_take_drop (n1 : Nat) (ds a b : DS R T W) (hs : Shaped ds)
-    (h : splitOwned n1 ds = some (a, b)) :
+theorem split_owned_take_drop (std : Bool) (n1 : Nat) (ds a b : DS R T W) (hs : Shaped ds)
+    (h : splitOwned std n1 ds = some (a, b)) :
     a.recs.length = n1 ∧ b.recs.length = ds.n - n1 ∧ a.tgts.length = n1 ∧ b.tgts.length = ds.n - n1 ∧
     AlignedBy id id id id ds a ∧ AlignedBy (fun k => n1 + k) id id id ds b := by
   have hal := splitOwned_alignedBy hs.1 hs.2.1 hs.2.2 h
   unfold splitOwned at h
+  split at h
+  · simp at h
   split at h
   · simp at h
   · simp only [Option.some.injEq, Prod.mk.injEq] at h
@@ -225,7 +227,7 @@ theorem split_owned_take_drop (n1 : Nat) (ds a b : DS R T W) (hs : Shaped ds)
     exact ⟨by simp [reshape], by simp [reshape], by simp [reshape], by simp [reshape], hal.1, hal.2⟩
 
 example :
-    let r := splitOwned 1 (mkDS 2 2 false [[0, 1], [8, 9], [16, 17]] [[5, 6], [7, 8], [9, 10]] [1, 2, 3] [] [])
+    let r := splitOwned true 1 (mkDS 2 2 false [[0, 1], [8, 9], [16, 17]] [[5, 6], [7, 8], [9, 10]] [1, 2, 3] [] [])
     r.map (fun ab => (ab.1.recs, ab.1.tgts, ab.1.weights)) = some ([[0, 1]], [[5, 6]], [1]) ∧
     r.map (fun ab => (ab.2.recs, ab.2.tgts, ab.2.weights)) = some ([[8, 9], [16, 17]], [[7, 8], [9, 10]], [2, 3]) := by
   decide
